@@ -144,6 +144,13 @@ def expectedBases : List (String × String) := [
 
 def checkBases (gen : List (String × String)) : Bool := gen == expectedBases
 
+/-- transcribed helpers: `numpy/util.py::no_nan_divide` — the model `Scico.Prox.noNanDiv` (`if isZero y then 0 else x / y`) transcribes exactly this
+    body: the denominator is tested for EXACT zero, nothing "small" is treated as zero -/
+def expectedHelpers : List (String × String) := [
+  ("no_nan_divide", "return snp.where(y != 0, snp.divide(x, snp.where(y != 0, y, 1)), 0)")]
+
+def checkHelpers (gen : List (String × String)) : Bool := gen == expectedHelpers
+
 -- the values the model side relies on, pinned (a change of the expected table without following it here does not compile)
 example : dflt "_dep_cubic_root" "band LtE" = "1e-07" := by decide
 example : dflt "SquaredL2Loss.default_prox_kwargs" "tol" = "1e-05" ∧ dflt "SquaredL2Loss.default_prox_kwargs" "maxiter" = "100" := by decide
